@@ -995,6 +995,6 @@ func pathBR(c BRCase) string {
 	}
 }
 
-var propBR = h.NewProp("TestPropBlindRotation", h.Budget{Quick: 300, Thorough: 1500}, genBR, runBR)
+var propBR = h.NewProp("TestPropBlindRotation", h.Budget{Quick: 200, Thorough: 400}, genBR, runBR)
 
 func TestPropBlindRotation(t *testing.T) { propBR.Check(t) }
